@@ -32,7 +32,9 @@ SharedTexts == <<
      OpK(","), Tk("Id", "$c") >>,
   \* hour(useTimezone(t, z)) with a zone name the process has not seen before (data 8-31): whatever the library keeps
   \* about zones is first filled while several goroutines ask at once (zone rules are not specified: the value is open)
-  << Tk("Id", "hour"), OpK("("), Tk("Id", "useTimezone"), OpK("("), Tk("Id", "t"), OpK(","), Tk("Id", "z"), OpK(")"), OpK(")") >> >>
+  << Tk("Id", "hour"), OpK("("), Tk("Id", "useTimezone"), OpK("("), Tk("Id", "t"), OpK(","), Tk("Id", "z"), OpK(")"), OpK(")") >>,
+  \* len(toString(m)) : a map formatted as text by every goroutine (the text itself is not specified)
+  << Tk("Id", "len"), OpK("("), Tk("Id", "toString"), OpK("("), Tk("Id", "m"), OpK(")"), OpK(")") >> >>
 Datas == << [a |-> <<"int", 1>>, b |-> <<"int", 2>>],
             [a |-> <<"dec", FALSE, <<1>>, 1>>, b |-> <<"f64", FALSE, <<5>>, -1>>],
             [a |-> <<"int64", FALSE, <<9,0,0,7,1,9,9,2,5,4,7,4,0,9,9,3>>>>, b |-> <<"int", -3>>],
